@@ -17,8 +17,8 @@ grep '^fixed:' known-findings.txt | while read -r _ prop commit rest; do
     echo "$commit $prop REVERT-DOES-NOT-BUILD (skipped) :: $rest" >> "$OUT"
   else
     res=$(./run.sh check -p "$prop" -repo "$wt" -evidence "$SCR/ev.json" 2>&1)
-    if echo "$res" | grep -q '^VIOLATION'; then
-      rules=$(echo "$res" | grep -E '^(VIOLATED|UNDECIDED)' | awk '{print $2}' | sort -u | tr '\n' ' ')
+    if printf "%s\n" "$res" | grep -q '^VIOLATION'; then
+      rules=$(printf "%s\n" "$res" | grep -E '^(VIOLATED|UNDECIDED)' | awk '{print $2}' | sort -u | tr '\n' ' ')
       echo "$commit $prop DETECTED by $rules:: $rest" >> "$OUT"
     else
       echo "$commit $prop MISSED :: $rest" >> "$OUT"
